@@ -280,7 +280,7 @@ def run(chk, b, tier):
     sz = b.sizer()
     scratch = b.scratchdir()
     n = 32 if tier == "quick" else 400
-    res = R.pmap(cli_case, [(R.SEED, i, sz, scratch) for i in range(n)])
+    res = R.pmap(cli_case, [(R.SEED, i, sz, scratch) for i in range(n)], chk=chk)
     for i, r in enumerate(res):
         chk.count(r["evals"])
         for clause, det in r["viol"]:
